@@ -57,10 +57,21 @@ def install(world: World) -> Dict[str, Any]:
     _retry.time = time_shim  # type: ignore[assignment]
     _retry.asyncio = aio_shim  # type: ignore[assignment]
     _time.sleep = sleep
+    # every clock a piece of code under test could read through the time module shows the virtual instant (modules that
+    # bound the functions at import time - threading, the event loop base class - keep the real ones)
+    for name in CLOCKS:
+        state['time.' + name] = getattr(_time, name)
+    _time.monotonic = _time.time = _time.perf_counter = lambda: world.now          # type: ignore[assignment]
+    _time.monotonic_ns = _time.time_ns = _time.perf_counter_ns = lambda: int(world.now * 1e9)  # type: ignore[assignment]
     return state
+
+
+CLOCKS = ('monotonic', 'time', 'perf_counter', 'monotonic_ns', 'time_ns', 'perf_counter_ns')
 
 
 def uninstall(state: Dict[str, Any]) -> None:
     _retry.time = state['retry.time']
     _retry.asyncio = state['retry.asyncio']
     _time.sleep = state['time.sleep']
+    for name in CLOCKS:
+        setattr(_time, name, state['time.' + name])
